@@ -1,4 +1,276 @@
-import XgiModel.Core.HG
+/-
+  C05 — Each edit has exactly its documented effect.
+  The operational model (Core/HG.lean) is the executable spec compared with the code step by step;
+  the theorems below state the *documentation* declaratively about that model.
+-/
+import XgiModel.Lemmas.HGWF
+import Mathlib.Tactic.Tauto
+import Mathlib.Tactic.ByContra
+
 namespace Xgi.C05
-theorem placeholder : True := trivial
+open Xgi Xgi.HG
+
+def degree (s : HG) (n : PyId) : Nat := (s.memb n).length
+def size (s : HG) (e : PyId) : Nat := (s.mem e).length
+
+/-! ### node removal -/
+
+theorem removeNode_weak_eq (s : HG) (n : PyId) (re : Bool) (hn : n ∈ s.nodes) :
+    removeNode s n false re = (removeNodeWeak s n re, .ok) := by
+  simp [removeNode, hn]
+
+theorem removeNode_strong_eq (s : HG) (n : PyId) (re : Bool) (hn : n ∈ s.nodes) :
+    removeNode s n true re = (removeNodeStrong s n, .ok) := by
+  simp [removeNode, hn]
+
+theorem rm_isEmpty_iff (n : PyId) (l : List PyId) : (rm n l).isEmpty = true ↔ ∀ m ∈ l, m = n := by
+  rw [List.isEmpty_iff]; constructor
+  · intro hemp m hmm; by_contra hne
+    have : m ∈ rm n l := by simp [hmm, hne]
+    rw [hemp] at this; cases this
+  · intro hall; apply List.eq_nil_iff_forall_not_mem.mpr; intro a ha; simp at ha; exact ha.1 (hall a ha.2)
+
+/-- weak removal: the call returns; the node goes; every edge loses it; an edge disappears iff it contained
+    the node, became empty and `remove_empty` is set; nothing else changes -/
+theorem weak_removal {s : HG} (h : WF s) (n : PyId) (re : Bool) (hn : n ∈ s.nodes) :
+    (removeNode s n false re).2 = .ok ∧
+    (∀ m, m ∈ (removeNode s n false re).1.nodes ↔ m ∈ s.nodes ∧ m ≠ n) ∧
+    (∀ e, e ∈ (removeNode s n false re).1.edges ↔
+          e ∈ s.edges ∧ ¬ (n ∈ s.mem e ∧ (∀ m ∈ s.mem e, m = n) ∧ re = true)) ∧
+    (∀ e ∈ s.edges, ∀ m, m ∈ (removeNode s n false re).1.mem e ↔ m ∈ s.mem e ∧ m ≠ n) ∧
+    (removeNode s n false re).1.memb = s.memb ∧ (removeNode s n false re).1.nattr = s.nattr ∧
+    (removeNode s n false re).1.eattr = s.eattr ∧ (removeNode s n false re).1.net = s.net ∧
+    (removeNode s n false re).1.uid = s.uid := by
+  obtain ⟨h1, h2, h3, h4, h5, h6, h7, h8, h9, h10, h11, h12⟩ := h
+  rw [removeNode_weak_eq s n re hn]
+  refine ⟨rfl, ?_, ?_, ?_, rfl, rfl, rfl, rfl, rfl⟩
+  · intro m; simp [removeNodeWeak]; tauto
+  · intro e
+    simp only [removeNodeWeak, List.mem_filter, Bool.not_eq_true', Bool.and_eq_false_iff, decide_eq_false_iff_not]
+    have hk := rm_isEmpty_iff n (s.mem e)
+    constructor
+    · intro ⟨he, hg⟩
+      refine ⟨he, ?_⟩
+      intro ⟨hin, hall, hre⟩
+      have hmem : e ∈ s.memb n := (h6 e he n hin).2
+      rcases hg with (hg | hg) | hg
+      · exact hg hmem
+      · rw [hk.mpr hall] at hg; cases hg
+      · rw [hre] at hg; cases hg
+    · intro ⟨he, hg⟩
+      refine ⟨he, ?_⟩
+      by_cases hin : e ∈ s.memb n
+      · by_cases hemp : (rm n (s.mem e)).isEmpty = true
+        · by_cases hre : re = true
+          · exact absurd ⟨(h5 n hn e hin).2, hk.mp hemp, hre⟩ hg
+          · right; simpa using hre
+        · left; right; simpa using hemp
+      · left; left; exact hin
+  · intro e he m; simp only [removeNodeWeak]
+    split
+    · simp; tauto
+    · rename_i hnot
+      have : n ∉ s.mem e := fun hin => hnot (h6 e he n hin).2
+      constructor
+      · intro hm; exact ⟨hm, fun hmn => this (hmn ▸ hm)⟩
+      · exact fun hm => hm.1
+
+/-- strong removal: exactly the edges containing the node disappear, the others are untouched -/
+theorem strong_removal {s : HG} (h : WF s) (n : PyId) (re : Bool) (hn : n ∈ s.nodes) :
+    (removeNode s n true re).2 = .ok ∧
+    (∀ m, m ∈ (removeNode s n true re).1.nodes ↔ m ∈ s.nodes ∧ m ≠ n) ∧
+    (∀ e, e ∈ (removeNode s n true re).1.edges ↔ e ∈ s.edges ∧ n ∉ s.mem e) ∧
+    (removeNode s n true re).1.mem = s.mem ∧
+    (∀ m ∈ (removeNode s n true re).1.nodes, ∀ e, e ∈ (removeNode s n true re).1.memb m ↔ e ∈ s.memb m ∧ n ∉ s.mem e) := by
+  obtain ⟨h1, h2, h3, h4, h5, h6, h7, h8, h9, h10, h11, h12⟩ := h
+  rw [removeNode_strong_eq s n re hn]
+  refine ⟨rfl, ?_, ?_, rfl, ?_⟩
+  · intro m; simp [removeNodeStrong]; tauto
+  · intro e; simp only [removeNodeStrong, List.mem_filter, decide_eq_true_eq]; grind
+  · intro m hm e; simp only [removeNodeStrong, List.mem_filter, decide_eq_true_eq, mem_rm] at hm ⊢
+    grind
+
+/-! ### edges and memberships -/
+
+/-- `remove_edge`: the edge goes, its members forget it, nothing else changes -/
+theorem remove_edge_effect {s : HG} (h : WF s) (e : PyId) (he : e ∈ s.edges) :
+    removeEdge s e = (dropEdge s e, .ok) ∧ (∀ f, f ∈ (dropEdge s e).edges ↔ f ∈ s.edges ∧ f ≠ e) ∧
+    (dropEdge s e).nodes = s.nodes ∧ (dropEdge s e).mem = s.mem ∧
+    (∀ m ∈ s.nodes, ∀ f, f ∈ (dropEdge s e).memb m ↔ f ∈ s.memb m ∧ f ≠ e) ∧
+    (dropEdge s e).nattr = s.nattr ∧ (dropEdge s e).eattr = s.eattr := by
+  obtain ⟨h1, h2, h3, h4, h5, h6, h7, h8, h9, h10, h11, h12⟩ := h
+  refine ⟨by simp [removeEdge, he], ?_, rfl, rfl, ?_, rfl, rfl⟩
+  · intro f; simp [dropEdge]; tauto
+  · intro m hm f; simp only [dropEdge]; split
+    · simp; tauto
+    · rename_i hnot
+      have : e ∉ s.memb m := fun hin => hnot (h5 m hm e hin).2
+      constructor
+      · intro hf; exact ⟨hf, fun hfe => this (hfe ▸ hf)⟩
+      · exact fun hf => hf.1
+
+/-- `remove_node_from_edge`: the incidence (n, e) goes on both sides; the edge itself goes iff it became
+    empty and `remove_empty` is set; everything else stays -/
+theorem remove_node_from_edge_effect (s : HG) (e n : PyId) (re : Bool)
+    (he : e ∈ s.edges) (hn : n ∈ s.nodes) (hm : n ∈ s.mem e) :
+    (removeNodeFromEdge s e n re).2 = .ok ∧ (removeNodeFromEdge s e n re).1.nodes = s.nodes ∧
+    (∀ f, f ∈ (removeNodeFromEdge s e n re).1.edges ↔ f ∈ s.edges ∧ ¬ (f = e ∧ (∀ m ∈ s.mem e, m = n) ∧ re = true)) ∧
+    (∀ m, m ∈ (removeNodeFromEdge s e n re).1.mem e ↔ m ∈ s.mem e ∧ m ≠ n) ∧
+    (∀ f, f ≠ e → (removeNodeFromEdge s e n re).1.mem f = s.mem f) ∧
+    (∀ f, f ∈ (removeNodeFromEdge s e n re).1.memb n ↔ f ∈ s.memb n ∧ f ≠ e) ∧
+    (∀ m, m ≠ n → (removeNodeFromEdge s e n re).1.memb m = s.memb m) := by
+  have key := rm_isEmpty_iff n (s.mem e)
+  by_cases hc : (∀ m ∈ s.mem e, m = n) ∧ re = true
+  · have : removeNodeFromEdge s e n re =
+        (delEdgeOnly { s with mem := upd s.mem e (rm n (s.mem e)), memb := upd s.memb n (rm e (s.memb n)) } e, .ok) := by
+      simp [removeNodeFromEdge, he, hn, hm, key.mpr hc.1, hc.2]
+    rw [this]
+    refine ⟨rfl, rfl, ?_, ?_, ?_, ?_, ?_⟩
+    · intro f; simp only [delEdgeOnly, mem_rm]
+      have := hc.1; have := hc.2; tauto
+    · intro m; simp [delEdgeOnly]; tauto
+    · intro f hf; simp [delEdgeOnly, hf]
+    · intro f; simp [delEdgeOnly]; tauto
+    · intro m hmn; simp [delEdgeOnly, hmn]
+  · have : removeNodeFromEdge s e n re =
+        ({ s with mem := upd s.mem e (rm n (s.mem e)), memb := upd s.memb n (rm e (s.memb n)) }, .ok) := by
+      simp only [removeNodeFromEdge, he, hn, hm, not_true_eq_false, if_false, upd_apply, if_true]
+      rw [if_neg]; rw [key]; exact hc
+    rw [this]
+    refine ⟨rfl, rfl, ?_, ?_, ?_, ?_, ?_⟩
+    · intro f; constructor
+      · intro a; exact ⟨a, fun hh => hc ⟨hh.2.1, hh.2.2⟩⟩
+      · exact fun a => a.1
+    · intro m; simp; tauto
+    · intro f hf; simp [hf]
+    · intro f; simp; tauto
+    · intro m hmn; simp [hmn]
+
+/-- `clear_edges` keeps the nodes and their attributes, removes every edge and membership -/
+theorem clear_edges_effect (s : HG) :
+    (clearEdges s).1.nodes = s.nodes ∧ (clearEdges s).1.nattr = s.nattr ∧ (clearEdges s).1.nattrK = s.nattrK ∧
+    (clearEdges s).1.edges = [] ∧ (clearEdges s).1.eattrK = [] ∧
+    (∀ n ∈ s.nodes, (clearEdges s).1.memb n = []) ∧ (clearEdges s).1.net = s.net := by
+  refine ⟨rfl, rfl, rfl, rfl, rfl, ?_, rfl⟩
+  intro n hn; simp [clearEdges, hn]
+
+/-- `clear` empties everything; network attributes go only when asked -/
+theorem clear_effect (s : HG) (b : Bool) :
+    (clear s b).1.nodes = [] ∧ (clear s b).1.edges = [] ∧ (clear s b).1.nattrK = [] ∧ (clear s b).1.eattrK = [] ∧
+    (clear s b).1.net = (if b then [] else s.net) ∧ (clear s b).1.uid = s.uid :=
+  ⟨rfl, rfl, rfl, rfl, rfl, rfl⟩
+
+/-! ### adding nodes: existing nodes get their attributes updated; per-item dict wins over **attr -/
+
+theorem add_node_existing (s : HG) (n : PyId) (a : Attrs) (hn : n ∈ s.nodes) (h0 : n ≠ .none) :
+    (addNode s n a).1.nodes = s.nodes ∧ (addNode s n a).1.memb = s.memb ∧
+    (addNode s n a).1.nattr n = Attrs.update (s.nattr n) a ∧ ∀ m, m ≠ n → (addNode s n a).1.nattr m = s.nattr m := by
+  have : addNode s n a = (updNodeAttr s n a, .ok) := by simp [addNode, h0, addNodeRaw, hn]
+  rw [this]
+  refine ⟨rfl, rfl, by simp [updNodeAttr], ?_⟩
+  intro m hm; simp [updNodeAttr, hm]
+
+theorem add_nodes_item_precedence (attr d : Attrs) (s : HG) (n : PyId) (h0 : n ≠ .none) :
+    ((addNodesItem attr s (n, some d)).1).nattr n = Attrs.update ((addNodeRaw s n).nattr n) (Attrs.update attr d) := by
+  simp [addNodesItem, h0, updNodeAttr]
+
+theorem foldl_link_eattr (ms : List PyId) (s : HG) (e : PyId) : (ms.foldl (fun s n => link s e n) s).eattr = s.eattr := by
+  induction ms generalizing s with
+  | nil => rfl
+  | cons m ms ih =>
+    simp only [List.foldl_cons]; rw [ih]
+    unfold link linkCore addNodeRaw; split <;> rfl
+
+/-- bulk edge formats 2 and 4: the per-edge dict is applied after (so it wins over) the keyword attributes -/
+theorem add_edges_item_precedence (fmt : Fmt) (attr : Attrs) (s : HG) (it : EdgeItem)
+    (hx : fmt.explicit = true) (h5 : fmt ≠ .f5) (hi : it.idx.getD .none ∉ s.edges)
+    (hn : PyId.none ∉ it.members ∧ it.idx.getD .none ≠ .none) :
+    ((addEdgesItem fmt attr s it).1).eattr (it.idx.getD .none) = Attrs.update [] (Attrs.update attr it.attr) := by
+  have hc : ¬ (PyId.none ∈ it.members ∨ it.idx.getD .none = .none) := by
+    intro h; rcases h with h | h
+    · exact hn.1 h
+    · exact hn.2 h
+  simp only [addEdgesItem, hx, if_true, hi, if_false, hc, h5]
+  have : ∀ t : HG, (bumpUid t (it.idx.getD .none)).eattr = t.eattr := by
+    intro t; unfold bumpUid; split
+    · split <;> rfl
+    · rfl
+  rw [this]
+  unfold addEdgeAt
+  rw [foldl_link_eattr]; simp [updEdgeAttr, newEdgeAttr]
+
+/-! ### degree- and size-preserving moves -/
+
+/-- an accepted double edge swap keeps every degree, every size, all IDs (in order) and all attributes;
+    a rejected one leaves the hypergraph as it was and raises the library's error -/
+theorem swap_preserves (s : HG) (n1 n2 e1 e2 : PyId) :
+    ((doubleEdgeSwap s n1 n2 e1 e2).2 = .ok →
+        (∀ n, degree (doubleEdgeSwap s n1 n2 e1 e2).1 n = degree s n) ∧
+        (∀ e, size (doubleEdgeSwap s n1 n2 e1 e2).1 e = size s e) ∧
+        (doubleEdgeSwap s n1 n2 e1 e2).1.nodes = s.nodes ∧ (doubleEdgeSwap s n1 n2 e1 e2).1.edges = s.edges ∧
+        (doubleEdgeSwap s n1 n2 e1 e2).1.nattr = s.nattr ∧ (doubleEdgeSwap s n1 n2 e1 e2).1.eattr = s.eattr ∧
+        (doubleEdgeSwap s n1 n2 e1 e2).1.net = s.net ∧ (doubleEdgeSwap s n1 n2 e1 e2).1.uid = s.uid) ∧
+    ((doubleEdgeSwap s n1 n2 e1 e2).2 ≠ .ok → doubleEdgeSwap s n1 n2 e1 e2 = (s, .err .lib)) := by
+  unfold doubleEdgeSwap
+  split
+  · exact ⟨fun h => (by cases h), fun _ => rfl⟩
+  · split
+    · exact ⟨fun h => (by cases h), fun _ => rfl⟩
+    · simp only []
+      split
+      · exact ⟨fun h => (by cases h), fun _ => rfl⟩
+      · split
+        · exact ⟨fun h => (by cases h), fun _ => rfl⟩
+        · rename_i hlen
+          simp only [not_or, Classical.not_not] at hlen
+          refine ⟨fun _ => ⟨?_, ?_, rfl, rfl, rfl, rfl, rfl, rfl⟩, fun h => absurd rfl h⟩
+          · intro n; simp only [degree, upd_apply]; split
+            · rename_i hn; subst hn; exact hlen.2.1
+            · split
+              · rename_i hn; subst hn; exact hlen.1
+              · rfl
+          · intro e; simp only [size, upd_apply]; split
+            · rename_i he; subst he; exact hlen.2.2.2
+            · split
+              · rename_i he; subst he; exact hlen.2.2.1
+              · rfl
+
+/-! ### rejected edits raise the library's own error and change nothing -/
+
+theorem missing_id_lib (s : HG) :
+    (∀ n st re, n ∉ s.nodes → removeNode s n st re = (s, .err .lib)) ∧
+    (∀ e, e ∉ s.edges → removeEdge s e = (s, .err .lib)) ∧
+    (∀ e n re, (e ∉ s.edges ∨ n ∉ s.nodes ∨ n ∉ s.mem e) → removeNodeFromEdge s e n re = (s, .err .lib)) ∧
+    (∀ n1 n2 e1 e2, (n1 ∉ s.nodes ∨ n2 ∉ s.nodes ∨ e1 ∉ s.edges ∨ e2 ∉ s.edges) → doubleEdgeSwap s n1 n2 e1 e2 = (s, .err .lib)) ∧
+    (∀ a, addNode s .none a = (s, .err .lib)) ∧
+    (∀ e n, (e = .none ∨ n = .none) → addNodeToEdge s e n = (s, .err .lib)) ∧
+    (∀ ms idx a, PyId.none ∈ ms → addEdge s ms idx a = (s, .err .lib)) := by
+  refine ⟨?_, ?_, ?_, ?_, ?_, ?_, ?_⟩
+  · intro n st re h; simp [removeNode, h]
+  · intro e h; simp [removeEdge, h]
+  · intro e n re h; unfold removeNodeFromEdge
+    by_cases h1 : e ∈ s.edges
+    · by_cases h2 : n ∈ s.nodes
+      · have h3 : n ∉ s.mem e := by rcases h with h | h | h <;> first | exact absurd h1 h | exact absurd h2 h | exact h
+        simp [h1, h2, h3]
+      · simp [h1, h2]
+    · simp [h1]
+  · intro n1 n2 e1 e2 h; simp only [doubleEdgeSwap, h, if_true]
+  · intro a; simp [addNode]
+  · intro e n h; simp [addNodeToEdge, h]
+  · intro ms idx a h; simp [addEdge, h]
+
+/-- missing IDs in `remove_nodes_from` and the attribute setters only warn and are skipped -/
+theorem missing_id_warns (s : HG) (n : PyId) (st re : Bool) (h : n ∉ s.nodes) :
+    removeNodesFrom s [n] st re = (s, .warned) := by
+  simp [removeNodesFrom, bulk, removeNodesItem, h, Outcome.join]
+
+/-! ### non-vacuity -/
+private def s1 : HG := ((stepCore HG.empty (.addEdgesFrom .f1
+  [{ members := [.int 1, .int 2, .int 3], idx := none, attr := [] }, { members := [.int 3, .int 4], idx := none, attr := [] }] [])).map (·.1)).getD HG.empty
+example : (doubleEdgeSwap s1 (.int 1) (.int 4) (.int 0) (.int 1)).2 = .ok := by decide
+example : (doubleEdgeSwap s1 (.int 3) (.int 4) (.int 0) (.int 1)).2 = .err .lib := by decide
+example : ((removeNode s1 (.int 3) true true).1).edges = [] := by decide
+example : ((removeNode s1 (.int 4) false true).1).mem (.int 1) = [.int 3] := by decide
+
 end Xgi.C05
